@@ -223,10 +223,10 @@ func c19Run(c c19Case, mk *c19Markers, rec *vh.Recorder) error {
 		time.Sleep(time.Millisecond)
 	}
 	if n := fdCount(); n != base {
-		if n < base {
-			// something unrelated to this history closed a descriptor (runtime / finalizer): not a leak, not judged
-			rec.Class("fd-count-went-down(not judged)", 1)
-			_ = baseList
+		leaked := leakedFds(baseList)
+		if n < base || len(leaked) == 0 {
+			// something unrelated to this history opened/closed a descriptor (runtime, finalizer): not judged
+			rec.Class("fd-count-changed-by-unrelated-descriptor(not judged)", 1)
 			return nil
 		}
 		key := "C19:descriptor-leak"
@@ -235,7 +235,7 @@ func c19Run(c c19Case, mk *c19Markers, rec *vh.Recorder) error {
 				key = "C19:descriptor-leak/truncated-message"
 			}
 		}
-		return vh.Violf(key, "%d descriptors open after the history, %d before (descriptors of a rejected message were not closed); %s", n, base, desc)
+		return vh.Violf(key, "%d descriptors open after the history, %d before; new: %v (descriptors of a rejected message were not closed); %s", n, base, leaked, desc)
 	}
 	classes = append(classes, fmt.Sprintf("passcred=%v", c.PassCred))
 	rec.Case(c, nt, dedup(classes)...)
@@ -244,6 +244,25 @@ func c19Run(c c19Case, mk *c19Markers, rec *vh.Recorder) error {
 		rec.Sample(c)
 	}
 	return nil
+}
+
+// leakedFds returns the descriptors that are open now but were not before and that can belong to the history
+// (marker files, sockets, pipes); descriptors the runtime opened for itself meanwhile are not a leak of the code under test.
+func leakedFds(before []string) []string {
+	old := map[string]bool{}
+	for _, e := range before {
+		old[e] = true
+	}
+	var out []string
+	for _, e := range fdList() {
+		if old[e] {
+			continue
+		}
+		if strings.Contains(e, "/mk") || strings.Contains(e, "socket:") || strings.Contains(e, "pipe:") || strings.Contains(e, "/marker") {
+			out = append(out, e)
+		}
+	}
+	return out
 }
 
 func fdList() []string {
@@ -377,6 +396,7 @@ func TestC19Gob(t *testing.T) {
 		defer b.Close()
 		sa, sb := container.VerifNewSocket(a), container.VerifNewSocket(b)
 		base := fdCount()
+		baseList := fdList()
 		desc := fmt.Sprintf("%+v", c)
 		send := func(m c19GMsg) (any, error) {
 			var fds []int
@@ -486,8 +506,14 @@ func TestC19Gob(t *testing.T) {
 			seenType[m.Type] = true
 			lastBig[m.Type] = false
 		}
+		for i := 0; i < 50 && fdCount() != base; i++ {
+			time.Sleep(time.Millisecond)
+		}
 		if n := fdCount(); n != base {
-			return vh.Violf("C19:descriptor-leak", "framed layer: %d descriptors after, %d before; %s", n, base, desc)
+			if leaked := leakedFds(baseList); n > base && len(leaked) > 0 {
+				return vh.Violf("C19:descriptor-leak", "framed layer: %d descriptors after, %d before; new: %v; %s", n, base, leaked, desc)
+			}
+			rec.Class("fd-count-changed-by-unrelated-descriptor(not judged)", 1)
 		}
 		rec.Case(c, nt, fmt.Sprintf("warm=%v", c.Warm))
 		if nt && rec.WantSample() {
